@@ -274,6 +274,10 @@ func parseRequestBody(c *Client, r *Request) (err error) {
 	}
 	// client-level form data applies to multipart and url-encoded forms alike
 	if len(c.FormData) > 0 && !r.clientFormDataMerged { // merge client-level form data once, not again when the body is set up again (retry attempt, digest re-send)
+		r.clientMerged.form, r.clientMerged.formAt = cloneUrlValues(c.FormData), make(map[string]int, len(c.FormData))
+		for k := range c.FormData {
+			r.clientMerged.formAt[k] = len(r.FormData[k])
+		}
 		r.SetFormDataFromValues(c.FormData)
 		r.clientFormDataMerged = true
 	}
@@ -585,7 +589,12 @@ func parseRequestHeader(c *Client, r *Request) error {
 	}
 	for k, vs := range c.Headers {
 		if len(r.Headers[k]) == 0 {
-			r.Headers[k] = append([]string(nil), vs...) // not the client's slice: request-level appends must not write into it
+			cp := append([]string(nil), vs...) // not the client's slice: request-level appends must not write into it
+			r.Headers[k] = cp
+			if r.clientMerged.headers == nil {
+				r.clientMerged.headers = make(map[string][]string)
+			}
+			r.clientMerged.headers[k] = cp
 		}
 	}
 	return nil
@@ -593,6 +602,7 @@ func parseRequestHeader(c *Client, r *Request) error {
 
 func parseRequestCookie(c *Client, r *Request) error {
 	if len(c.Cookies) > 0 && r.RetryAttempt <= 0 {
+		r.clientMerged.cookies, r.clientMerged.cookiesAt = append([]*http.Cookie(nil), c.Cookies...), len(r.Cookies)
 		r.Cookies = append(r.Cookies, c.Cookies...)
 	}
 
